@@ -111,11 +111,11 @@ def _run_scripts(tier, seed):
                         acc.violation(v)
             # the batch separator keyword GO, in every letter case and whitespace spelling
             base_sh = None
-            for go in ('GO', 'go', 'Go', 'gO', 'GO 2', 'go 2'):
+            for go in ('GO', 'go', 'Go', 'gO', 'GO 2', 'go 2', 'GO  2', 'go\t2'):
                 for w in ('\n', ' ', '\r\n'):
                     text = (w + go + w).join(stmts)
                     sh = _shape_of(sqlparse, text)
-                    key = go.split()[-1] if ' ' in go else ''
+                    key = go.split()[-1] if len(go.split()) > 1 else ''
                     if base_sh is None or key not in base_sh:
                         base_sh = base_sh or {}
                         base_sh[key] = (sh, text)
